@@ -371,7 +371,8 @@ c17 = with_shared(_c17, [(_c18, {'C18.P6': 'C17.Z9'}, 'a newly constructed machi
                          (_c06, {'C06.b': 'C17.Z5'}, 'the enabled set and the armed sites change together: disabling one location leaves the others listed, so reset() can disarm them')])
 c18 = with_shared(_c18, [(_c08, {'C08.c': 'C18.P11'}, 'observers (the disassembler, the VM\'s queries) do not write the program\'s tables: listing or inspecting a program leaves it the program that was compiled'),
                          (_c02, {'C02.p': 'C18.P9'}, 'no value is read before it was written: results do not depend on what happened to be in memory')])
-c20 = with_shared(_c20, [(_c09, {'C09.b': 'C20.A7'}, 'a priority that passed the range check is the priority that is used: it is not narrowed on the way into the definition'),
+c20 = with_shared(_c20, [(_c09, {'C09.b': 'C20.A7', 'C09.e': 'C20.A8'}, 'a priority that passed the range check is the priority that is used: it is not narrowed on the way into the definition; '
+                                 'an insertion index whose digits do not fit (reported as -1 by the conversion) is rejected by the range test on both sides'),
                          (_c02, {'C02.e': 'C20.A6'}, 'a recorded range error rejects the source: correctness is decided after the errors of every stage were merged'),
                          (c11, {'C11.c': 'C20.A5'}, 'a range error recorded by any stage makes the compilation incorrect: the errors of every stage are merged before correctness is decided')])
 _c19 = c19
